@@ -382,6 +382,10 @@ class Ctx:
             # evidence/ describes runs against /repo itself; a development run against a scratch worktree
             # (VERIF_REPO) writes under build/ (ignored) so that it never replaces committed evidence
             evdir = os.path.join(VERIF, "evidence") if REPO == "/repo" else os.path.join(VERIF, "build", "evidence-scratch")
+            if self.parent is not None and self.prop.startswith("C"):
+                # a registered property run as a PART of another check (C13 runs C14's replay, C16 a part of
+                # C18): its partial record must never replace the evidence of that property's own check
+                evdir = os.path.join(VERIF, "build", "evidence-included")
             os.makedirs(evdir, exist_ok=True)
             with open(os.path.join(evdir, self.prop + ".json"), "w") as f:
                 json.dump(ev, f, indent=1, sort_keys=True, default=str)
